@@ -400,9 +400,8 @@ def add_star(G, nodes, t, **attr):
         >>> G = dn.DynGraph()
         >>> dn.add_star(G, [0,1,2,3], t=0)
     """
-    nlist = iter(nodes)
-    v = next(nlist)
-    edges = ((v, n) for n in nlist)
+    nlist = list(nodes)
+    edges = ((nlist[0], n) for n in nlist[1:])
     G.add_interactions_from(edges, t, **attr)
 
 
@@ -459,7 +458,7 @@ def add_cycle(G, nodes, t, **attr):
             >>> dn.add_cycle(G, [0,1,2,3], t=0)
             """
     nlist = list(nodes)
-    edges = zip(nlist, nlist[1:] + [nlist[0]])
+    edges = zip(nlist, nlist[1:] + nlist[:1])
     G.add_interactions_from(edges, t, **attr)
 
 
